@@ -161,6 +161,7 @@ structure PathV where
   pubPass : Option Str := none
   readUser : Option Str := none
   readPass : Option Str := none
+  udpRange : Nat := 2          -- len(rtspUDPSourcePortRange)
   camID : Nat := 0
   secondary : Bool := false
   width : Nat := 0
@@ -661,8 +662,18 @@ def pcRest (pb : Bool) : List (String × (PathV → Bool)) := [
     fun p => imp (!p.runOnDemand.isEmpty || !p.runOnUnDemand.isEmpty) (p.source == sPublisher))
 ]
 
-/-- all per-path constraints -/
+/-- the per-path constraints that `Path.validate` enforces -/
 def pathConstraints (pb : Bool) : List (String × (PathV → Bool)) := pcName ++ pcSource ++ pcTop ++ pcRest pb
+
+/-- documented ("Range of ports used as source port in outgoing UDP packets", default `[32768, 60999]`) and relied
+upon (`internal/staticsources/rtsp/source.go` indexes `[0]` and `[1]`), but NOT enforced by `Path.validate`:
+open finding, class `udp-port-range-arity` -/
+def pcRange : List (String × (PathV → Bool)) := [
+  ("rtspUDPSourcePortRange has exactly two entries", fun p => p.udpRange == 2)
+]
+
+/-- all documented per-path constraints -/
+def pathConstraintsFull (pb : Bool) : List (String × (PathV → Bool)) := pathConstraints pb ++ pcRange
 
 def isRpiPrimary (p : PathV) : Bool := p.source == sRpiCamera && !p.secondary
 def isRpiSecondary (p : PathV) : Bool := p.source == sRpiCamera && p.secondary
@@ -719,12 +730,25 @@ def crossConstraints : List (String × (ConfV → Bool)) := [
 
 def globalConstraints : List (String × (ConfV → Bool)) := globalOnlyConstraints ++ crossConstraints
 
-/-- names of the constraints an (accepted) configuration violates -/
+/-- names of the constraints an (accepted) configuration violates — those that `Validate` enforces -/
 def violations (c : ConfV) : List String :=
   (globalConstraints.filter (fun k => !k.2 c)).map (·.1) ++
   c.paths.flatMap fun p => ((pathConstraints c.playback).filter (fun k => !k.2 p)).map (·.1)
 
-/-- **the spec** -/
+/-- the enforced part of the spec -/
 def constraints (c : ConfV) : Bool := violations c == []
+
+/-- decidable class of the open finding: some path's port range is not a pair -/
+def rangeArityClass (c : ConfV) : Bool := c.paths.any fun p => p.udpRange != 2
+
+/-- **the spec**: every documented constraint, incl. the arity of `rtspUDPSourcePortRange` -/
+def constraintsFull (c : ConfV) : Bool := constraints c && !rangeArityClass c
+
+/-- `Conf.Validate` with the proposed length check in `Path.validate` (verdict level: the check only adds an
+error return) -/
+def validateFixed (c : ConfV) : Except String ConfV :=
+  match validate c with
+  | .error e => .error e
+  | .ok c' => if rangeArityClass c' then .error "'rtspUDPSourcePortRange' must contain exactly two ports" else .ok c'
 
 end MtxVerif.C10
